@@ -119,7 +119,7 @@ pub assume_specification[ <Constraint as Default>::default ]() -> (r: Constraint
     f.verus("composer.Constraint::from_external", ret="r", requires=["constraint.wf()"],
             ensures=["r.wf()", "r.wires() == constraint.wires()", "r.has_pi() == constraint.has_pi()"]
                     + [f"r.coeffs()[{k}] == constraint.coeffs()[{k}]" for k in range(7)] + [f"r.q({k}) == 0" for k in range(7, 12)])
-    f.after("let mut s = Self::default();", "let ghost s0 = s;")
+    f.after("let mut s =", "let ghost s0 = s;")
     f.before_tail("""proof {
     assert(forall|k: int| 7 <= k < 12 ==> s.coefficients@[k] == s0.coefficients@[k]);
 }""")
@@ -212,14 +212,14 @@ pub assume_specification[ <Composer as core::ops::Index<Witness>>::index ](c: &C
                 "pis(*final(self)) == pis_after(pis(*old(self)), gates(*old(self)).len(), s)",
             ])
     f.at_body_start("proof { field_obeys(); } broadcast use field_axioms;")
-    f.after("let x = qm * a * b + ql * a + qr * b + qf * d + qc + pi;", """proof {
+    f.after("let x =", """proof {
     lemma_eo(s.q(0), s.q(1), s.q(2), s.q(4), s.q(5), s.q(6), cv(a), cv(b), cv(d));
     assert(cv(x) == eo_x(*self, s));
 }""")
     f.replace("y.invert().map(|y| x * (-y))",
               "match y.invert() { Some(y) => { proof { lemma_out_general(s.q(3), cv(y), cv(x)); } Some(x * (-y)) }, None => None }",
               rule="D9 (Option::map(closure) => its defining match) + proof hint")
-    f.before("let output = c.map(|c| self.append_witness(c));", """proof {
+    f.before("let output =", """proof {
     lemma_out_one(cv(x));
     lemma_out_minus_one(cv(x));
     lemma_md_small(cv(x));
